@@ -44,11 +44,32 @@ def split_input(rng, inp):
     return i1, i2
 
 
+def canonical(rng):
+    """the documented use of each provider: one rule fills the tagged relation from a plain one, a LATER stratum joins it with a query"""
+    V = lambda x: ("v", x)   # noqa: E731
+    out = []
+    for prov, path in (("eqrel", "ascent_byods_rels::eqrel"), ("trrel", "ascent_byods_rels::trrel"), ("trrel_uf", "ascent_byods_rels::trrel_uf")):
+        for tern in (False, True):
+            for macro in (("ascent", "ascent_par") if prov == "eqrel" and not tern else ("ascent",)):
+                k = [V("k")] if tern else []
+                A = 3 if tern else 2
+                rels = [("t", A, ("ds", path)), ("link", A, "rel"), ("query", 1, "rel"), ("answer", A, "rel")]
+                rules = [dict(heads=[("t", k + [V("x"), V("y")])], body=[("clause", "link", k + [V("x"), V("y")], [])]),
+                         dict(heads=[("answer", k + [V("x"), V("y")])], body=[("clause", "query", [V("x")], []), ("clause", "t", k + [V("x"), V("y")], [])])]
+                inputs = []
+                for _ in range(2):
+                    n = rng.choice([3, 4, 6])
+                    links = [tuple(([rng.randrange(2)] if tern else []) + [rng.randrange(5), rng.randrange(5)]) for _ in range(n)]
+                    inputs.append({"link": sorted(set(links)), "query": sorted({(rng.randrange(5),) for _ in range(3)})})
+                out.append(("canon_%s_%d_%s" % (prov, A, macro), prov, dict(rels=rels, rules=rules), [r for r in rels if r[2] == "rel"], macro, inputs))
+    return out
+
+
 def sources(tier, seed):
     """[(id, provider, program AST, snapshot rels, macro, input)]"""
     n = 6 if tier == "quick" else 40
-    out = []
-    for c in c10_prog.gen_cases(tier, seed, prop="C13")[:n]:
+    out = canonical(lib.rng_for(seed, "C13", "byods_canon"))
+    for c in [c for c in c10_prog.gen_cases(tier, seed, prop="C13") if not has_agg(c10_prog.programs_of(c)[0])][:n]:
         tagged, _ = c10_prog.programs_of(c)
         out.append((c["id"], "eqrel", tagged, [r for r in tagged["rels"] if r[2] == "rel"], "ascent_par" if c["cfg"].get("par") else "ascent", c["inputs"]))
     for c in c11_prog.gen_cases(tier, seed, prop="C13")[:n]:
